@@ -57,6 +57,8 @@ class ExtendedNonlocalGame:
                 num_bob_in,
             ) = pred_mat.shape
             self.prob_mat = tensor(prob_mat, reps)
+            # Complex predicate operators must keep their imaginary parts.
+            pred_dtype = np.result_type(pred_mat.dtype, float)
 
             pred_mat2 = np.zeros(
                 (
@@ -66,13 +68,14 @@ class ExtendedNonlocalGame:
                     num_bob_out**reps,
                     num_alice_in**reps,
                     num_bob_in**reps,
-                )
+                ),
+                dtype=pred_dtype,
             )
             i_ind = np.zeros(reps, dtype=int)
             j_ind = np.zeros(reps, dtype=int)
             for i in range(num_alice_in**reps):
                 for j in range(num_bob_in**reps):
-                    to_tensor = np.empty([reps, dim_x, dim_y, num_alice_out, num_bob_out])
+                    to_tensor = np.empty([reps, dim_x, dim_y, num_alice_out, num_bob_out], dtype=pred_dtype)
                     for k in range(reps - 1, -1, -1):
                         to_tensor[k] = pred_mat[:, :, :, :, i_ind[k], j_ind[k]]
                     pred_mat2[:, :, :, :, i, j] = tensor(to_tensor)
